@@ -6,6 +6,7 @@ import (
 	"go/types"
 	"regexp/syntax"
 	"strings"
+	"sync"
 
 	"golang.org/x/tools/go/ssa"
 )
@@ -35,6 +36,14 @@ func (g *cgraph) defineCallResult(c *ssa.Call, idx int, key string, val ssa.Valu
 		return
 	}
 	a := g.a
+	// a helper of the library that returns -1 or a position inside its first (string / slice) argument
+	if idx == 0 && a.p.inScope(sc) && len(sc.Params) >= 1 && len(c.Call.Args) >= 1 && isIntegerT(c.Type()) {
+		if a.returnsIndexInto(sc) {
+			g.le(zeroTerm, key, 1) // ≥ -1
+			g.defineLen(c.Call.Args[0], 1)
+			g.le(key, "len("+a.regKey(c.Call.Args[0])+")", -1)
+		}
+	}
 	switch sc.String() {
 	case "bytes.IndexAny", "bytes.IndexByte", "bytes.Index", "bytes.IndexRune", "bytes.IndexFunc",
 		"strings.Index", "strings.IndexAny", "strings.IndexByte", "strings.IndexRune", "strings.IndexFunc",
@@ -1320,4 +1329,66 @@ func localTableField(x *ssa.UnOp) (int64, int64, bool) {
 		return 0, 0, false // a row leaves the field at zero
 	}
 	return lo, hi, true
+}
+
+var returnsIndexCache sync.Map // *ssa.Function -> bool
+
+// returnsIndexInto: every value f returns (single int result) is provably ≥ -1 and ≤ len(first parameter) - 1 at
+// the point of the return (with the facts of f's own body: the constant -1, the result of an Index* call on the
+// parameter, a loop index bounded by its length).
+func (a *NilAnalysis) returnsIndexInto(f *ssa.Function) bool {
+	if v, ok := returnsIndexCache.Load(f); ok {
+		return v.(bool)
+	}
+	returnsIndexCache.Store(f, false) // recursion guard
+	res := func() bool {
+		if len(f.Blocks) == 0 || f.Signature.Results().Len() != 1 {
+			return false
+		}
+		p0 := f.Params[0]
+		switch p0.Type().Underlying().(type) {
+		case *types.Slice:
+		case *types.Basic:
+			if !isStringT(p0.Type()) {
+				return false
+			}
+		default:
+			return false
+		}
+		if a.at == nil {
+			return false
+		}
+		saveCur, saveFn, saveCase, saveCases := a.cur, a.curFn, a.curCase, a.curCases
+		defer func() { a.cur, a.curFn, a.curCase, a.curCases = saveCur, saveFn, saveCase, saveCases }()
+		n := 0
+		for _, b := range f.Blocks {
+			ret, ok := b.Instrs[len(b.Instrs)-1].(*ssa.Return)
+			if !ok {
+				continue
+			}
+			n++
+			r := ret.Results[0]
+			if c, ok := constInt(r); ok {
+				if c != -1 {
+					return false
+				}
+				continue
+			}
+			t, k, ok := a.intTerm(r)
+			if !ok {
+				return false
+			}
+			a.cur, a.curFn, a.curCase, a.curCases = ret, f, nil, nil
+			g := a.newGraph(f, ret)
+			g.define(r, 0)
+			g.defineLen(p0, 0)
+			lp := "len(" + a.regKey(p0) + ")"
+			if !g.proveLE(t, k, lp, -1) || !g.proveLE(zeroTerm, -1, t, k) {
+				return false
+			}
+		}
+		return n > 0
+	}()
+	returnsIndexCache.Store(f, res)
+	return res
 }
